@@ -398,6 +398,9 @@ func cmdApi(args []string) error {
 			if c.X.R != "?" && specDesc != implDesc && len(specMismatch) < 50 {
 				specMismatch = append(specMismatch, map[string]interface{}{"filter": src, "container": cont.Name, "spec": specDesc, "impl": trunc(implDesc)})
 			}
+			if rv := reflect.ValueOf(res); res != nil && rv.Kind() == reflect.Slice && in.IsValid() && in.Kind() == reflect.Slice && rv.Len() > 0 && in.Len() > 0 {
+				ctx.emit(group{Rel: "flag", Ok: rv.Pointer() != in.Pointer(), Info: info("Execute returns a new slice, not the input's storage")})
+			}
 			if desc != "E" && res != nil {
 				// idempotence, and E / not E partition the container when nothing errors
 				_, again := execute(fl, res)
